@@ -29,7 +29,8 @@
 From DB Require Import Model.RaftNet Model.RaftNetSnap Model.RaftNetCfg Model.RaftNetCfgSnap
   Proofs.RaftNetLists Proofs.RaftNetElection Proofs.RaftNetLog Proofs.RaftNetCommitDefs
   Proofs.RaftNetCommit Proofs.RaftNetSafety Proofs.RaftNetSnap Proofs.RaftNetCfgLemmas
-  Proofs.RaftNetCfgInv Proofs.RaftNetCfgStep Proofs.RaftNetCfgSafety Proofs.RaftNetCfgSnap.
+  Proofs.RaftNetCfgInv Proofs.RaftNetCfgStep Proofs.RaftNetCfgSafety Proofs.RaftNetCfgSnap
+  Model.RaftNetRead Proofs.RaftNetRead.
 
 (* ================================================================== *)
 (* quorums *)
@@ -680,3 +681,54 @@ Theorem applied_le_committed4 : forall cfg_of is_cc, cfg_contract cfg_of is_cc -
   reachable4 cfg_of is_cc s -> applied (base4 s) i <= commit (nodes (base3 (base4 s)) i).
 Proof. exact RaftNetCfgSnap.applied_le_committed4. Qed.
 Print Assumptions applied_le_committed4.
+
+(* ================================================================== *)
+(* ReadIndex (Model/RaftNetRead.v, stage-1 voter set): C06                      *)
+(* ================================================================== *)
+
+(* A read record r = (ctx, term, leader, index) is made by a leader that has committed
+   an entry of its own term, with index := its commit index; [r_snap r] is the (ghost)
+   state of the whole system at that moment.  Once a quorum of V has confirmed ctx in
+   that term, the index is at least every commit index that any node had when the read
+   was requested -- also the highest one a node ever had ([hcommit]), so it covers
+   everything acknowledged to any client before the request. *)
+Theorem read_index_not_stale : forall V, NoDup V -> forall s r j,
+  reachableR V s -> In r (reads s) -> confirmed V s r ->
+  hcommit (nodes (r_snap r) j) <= r_index r.
+Proof. exact RaftNetRead.read_index_not_stale. Qed.
+Print Assumptions read_index_not_stale.
+
+Theorem read_index_covers_commits : forall V, NoDup V -> forall s r j,
+  reachableR V s -> In r (reads s) -> confirmed V s r ->
+  commit (nodes (r_snap r) j) <= r_index r.
+Proof. exact RaftNetRead.read_index_covers_commits. Qed.
+Print Assumptions read_index_covers_commits.
+
+Theorem step_fnR_sound : forall V s l s', step_fnR V s l = Some s' -> stepR V s l s'.
+Proof. exact RaftNetRead.step_fnR_sound. Qed.
+Print Assumptions step_fnR_sound.
+
+Theorem confirmed_b_sound : forall V, NoDup V -> forall s r,
+  confirmed_b V s r = true -> confirmed V s r.
+Proof. exact RaftNetRead.confirmed_b_sound. Qed.
+Print Assumptions confirmed_b_sound.
+
+(* non-vacuity: after run_a (leader 1 of term 1 has committed index 2, an entry of its own
+   term) a read with ctx 7 is requested and confirmed by node 2; before that confirmation
+   it is not confirmed; a leader that has not committed anything in its term cannot
+   serve reads; a node of another term cannot confirm *)
+Definition run_r : list labelR := map LRBase run_a ++ [LRRequest 1 7].
+
+Definition read_obs (o : option netR) :=
+  match o with
+  | Some s => Some (map (fun r => (r_ctx r, r_term r, r_ldr r, r_index r, confirmed_b V3 s r)) (reads s))
+  | None => None
+  end.
+
+Example read_confirmed :
+  read_obs (runR V3 (initR) run_r) = Some [(7, 1, 1, 2, false)] /\
+  read_obs (runR V3 (initR) (run_r ++ [LRRespond 2 1 7])) = Some [(7, 1, 1, 2, true)] /\
+  runR V3 (initR) (run_r ++ [LRRespond 3 1 7]) = None /\
+  runR V3 (initR) (map LRBase [LTimeout 1; LHigherTerm 2 1; LHandleRV 2 1 1 0 0; LBecomeLeader 1]
+                     ++ [LRRequest 1 7]) = None.
+Proof. vm_compute. repeat split. Qed.
